@@ -398,10 +398,10 @@ def task_hyp(ctx, n):
 
 def tasks(tier, scale=1.0):
     out = []
-    nrand = 2 if tier == 'quick' else 40
+    nrand = 4 if tier == 'quick' else 150
     for i, w in enumerate(GRID_W):
         out.append(('grid-w%d' % w, 'task_grid', {'words': [w], 'nrand': nrand, 'seed': 1000 + i}))
     out.append(('extprec', 'task_extprec', {}))
-    nh = int((600 if tier == 'quick' else 15000) * scale)
+    nh = int((1500 if tier == 'quick' else 50000) * scale)
     out += [('hyp-%d' % i, 'task_hyp', {'n': nh}) for i in range(6)]
     return out
